@@ -104,6 +104,17 @@ func (g G) Len8(small int) int {
 // Raw: arbitrary bytes of length n.
 func (g G) Raw(n int) string { return string(g.Bytes(n)) }
 
+// FileName: an attachment file name of 1..max bytes: a third of the time a dictionary text (path-like names included:
+// the codec carries names verbatim, whatever the file server later does with them), otherwise arbitrary bytes.
+func (g G) FileName(max int) string {
+	if g.Chance(1, 3) {
+		if t, ok := g.Plausible(max); ok && len(t) >= 1 {
+			return t
+		}
+	}
+	return g.Raw(1 + g.Intn(max))
+}
+
 // Fixed: value of a fixed-width NUL-padded field of width max: length 0..max, arbitrary bytes,
 // no trailing NUL (trimRight) and — when both is set — no leading NUL either (fields parsed with bytes.Trim).
 func (g G) Fixed(max int, both bool) string {
@@ -776,7 +787,7 @@ func Cases(g G) []TCase {
 			t.TerminalID = g.Fixed(IDLen(d), true)
 		}
 		for i := 0; i < n; i++ {
-			nm := g.Raw(1 + g.Intn(60)) // names have length >= 1 (the parser's count x 6 pre-check assumes it)
+			nm := g.FileName(60) // names have length >= 1 (the parser's count x 6 pre-check assumes it)
 			t.T0x1210AlarmItemList = append(t.T0x1210AlarmItemList, model.T0x1210AlarmItem{FileNameLen: byte(len(nm)), FileName: nm, FileSize: g.U32()})
 		}
 		tc := TCase{Name: fmt.Sprintf("T0x1210/dialect%d", d), Type: "T0x1210", ID: 0x1210, Ver: V13, Dialect: d, Val: t,
@@ -788,7 +799,7 @@ func Cases(g G) []TCase {
 			Mk: func() TwoWay { return &model.P0x9208{P9208AlarmSign: model.P9208AlarmSign{ActiveSafetyType: d}} }})
 	}
 	{
-		nm := g.Raw(max(1, g.Len8(80)))
+		nm := g.FileName(80)
 		add("T0x1211", "T0x1211", 0x1211, V13, &model.T0x1211{FileNameLen: byte(len(nm)), FileName: nm, FileType: g.U8(), FileSize: g.U32()}, func() TwoWay { return &model.T0x1211{} })
 		add("T0x1212", "T0x1212", 0x1212, V13, &model.T0x1212{T0x1211: model.T0x1211{FileNameLen: byte(len(nm)), FileName: nm, FileType: g.U8(), FileSize: g.U32()}}, func() TwoWay { return &model.T0x1212{} })
 	}
